@@ -38,6 +38,19 @@ def step (d : DSt) (ws : List String) : DSt × String :=
     else (d, "no-runnable")
   | ["wake"] =>
     if d.s.live && d.s.wakers != 0 then let s' := opWakeRef d.s; ({ d with s := s' }, obs s') else (d, "no-waker")
+  | ["racewake", k, n] =>
+    -- n rounds of: k wake-ups of the idle task through one waker (in any order: the first creates the Runnable, the others
+    -- only count), then the Runnable is run
+    match k.toNat?, n.toNat? with
+    | some k, some n =>
+      if d.s.live && d.s.wakers != 0 then
+        let round := fun (p : S × Nat) =>
+          let s1 := (List.range k).foldl (fun s _ => opWakeRef s) p.1
+          opRun d.hk d.script p.2 s1
+        let (s', k') := (List.range n).foldl (fun p _ => round p) (d.s, d.k)
+        ({ d with s := s', k := k' }, obs s')
+      else (d, "no-waker")
+    | _, _ => (d, "bad-op")
   | ["wakev"] =>
     if d.s.live && d.s.wakers != 0 then let s' := opWakeVal d.hk d.s; ({ d with s := s' }, obs s') else (d, "no-waker")
   | ["clone"] =>
